@@ -1564,7 +1564,7 @@ func caseVariant(r *rand.Rand, n string) string {
 }
 
 var valueWords = []string{"file", "conf", "v1", "v2", "a b", "with:colon", "text/plain; charset=utf-8", "Bearer xxx", "k=v; k2=v2",
-	"", "x]y", "[z", "ünï", "0", "*/*"}
+	"", "x]y", "[z", "ünï", "0", "*/*", "two  blanks", "tab\tin  side", "a   b  :  c"} // round 4: runs of blanks / a tab INSIDE a value stay
 
 func genValue(r *rand.Rand, who string) string {
 	w := valueWords[r.Intn(len(valueWords))]
@@ -2322,7 +2322,7 @@ func r3Cases(r *rand.Rand, n int) []string {
 
 // pacedCases (round 4): PACED shooting under the client's timeout options. Every case gives ALL five timeouts of the gun by name
 // (idle-conn-timeout, response-header-timeout, tls-handshake-timeout, expect-continue-timeout, dial.timeout) with distinct values;
-// one of the first four is SHORT (300-400 ms), the others are seconds, and the case probes with pauses between the shots of an
+// one of them is SHORT (300-400 ms; the dial timeout 600-800 ms), the others are seconds, and the case probes with pauses between the shots of an
 // instance (or with a target that answers late) three times as long as the short one. The property lets only a short
 // idle-conn-timeout (against pauses) or a short response-header-timeout (against late answers) cost connections: every other
 // combination must keep one connection per instance. n cases, the combinations cycled.
@@ -2330,9 +2330,13 @@ func pacedCases(r *rand.Rand, n int) []string {
 	type combo struct {
 		short string // which option is the short one
 		probe string // gap | delay
+		gun   string // "" = any
 	}
-	combos := []combo{{"rht", "gap"}, {"ect", "gap"}, {"hs", "gap"}, {"idle", "delay"}, {"ect", "delay"}, {"hs", "delay"},
-		{"rht", "delay"}, {"idle", "gap"}} // the last two: the operator's own demand (predicted, not judged)
+	// the dial timeout bounds the DIAL (for the connect gun: of the tunnel end); a connection that stands has nothing to do with it,
+	// however long the instance pauses afterwards
+	combos := []combo{{"rht", "gap", ""}, {"ect", "gap", ""}, {"hs", "gap", ""}, {"idle", "delay", ""}, {"ect", "delay", ""},
+		{"hs", "delay", ""}, {"dto", "gap", "connect"}, {"dto", "gap", "http"},
+		{"rht", "delay", ""}, {"idle", "gap", ""}} // the last two: the operator's own demand (predicted, not judged)
 	var out []string
 	for i := 0; i < n; i++ {
 		cb := combos[i%len(combos)]
@@ -2341,6 +2345,9 @@ func pacedCases(r *rand.Rand, n int) []string {
 		r.Shuffle(len(long), func(a, b int) { long[a], long[b] = long[b], long[a] })
 		val := map[string]int{"idle": long[0], "rht": long[1], "hs": long[2], "ect": long[3], "dto": long[4] + 3000}
 		val[cb.short] = short
+		if cb.short == "dto" {
+			val["dto"] = 2 * short // 600-800 ms: generous for a loopback dial, well below the pauses of 900-1200 ms
+		}
 		c := caseIn{ka: true, inst: 1 + r.Intn(2), tgt: "127.0.0.1", passes: 1, mode: "seq", rsp: []string{"2", "700"}[r.Intn(2)],
 			idle: strconv.Itoa(val["idle"]), rht: strconv.Itoa(val["rht"]), hs: strconv.Itoa(val["hs"]), ect: strconv.Itoa(val["ect"]),
 			dto: strconv.Itoa(val["dto"])}
@@ -2354,6 +2361,9 @@ func pacedCases(r *rand.Rand, n int) []string {
 		}
 		c.format = []string{"uri", "uripost", "jsonline", "jsonarr", "raw"}[r.Intn(5)]
 		c.gun = []string{"http", "http", "connect"}[r.Intn(3)] // http2: response-header-timeout is outside (x/net/http2's own timers)
+		if cb.gun != "" {
+			c.gun = cb.gun
+		}
 		c.ssl = cb.short != "hs" && r.Intn(3) == 0           // a short handshake timeout with a TLS target is the machine's lottery
 		c.srv = map[bool]string{true: "tls", false: "plain"}[c.ssl]
 		if i >= len(combos) && r.Intn(5) == 0 {
@@ -2465,9 +2475,9 @@ func c09Gen(r *rand.Rand, tier string) []string {
 	if tier == "thorough" {
 		nSize, nR3 = 96, 360
 	}
-	nPaced, nVol := 8, 8
+	nPaced, nVol := 10, 8
 	if tier == "thorough" {
-		nPaced, nVol = 96, 96
+		nPaced, nVol = 100, 96
 	}
 	out = append(out, pacedCases(r, nPaced)...)
 	out = append(out, volleyCases(r, nVol)...)
